@@ -29,7 +29,11 @@ def _settings(n, phases):
                     phases=phases)
 
 
+SCALE = 1.0   # set by the runner for shards that are repetitions of others (e.g. under -O): fewer cases each
+
+
 def search(res, strategy, body, seed, n, shrink=True):
+    n = max(10, int(n * SCALE)) if SCALE != 1.0 else n
     buckets = {}
 
     @hypothesis.seed(seed)
